@@ -357,45 +357,243 @@ theorem colliding_grids_share_instance {G : Type} (hash : G → GridId) (e : Ele
     step e s (.req (some (hash g1)) none w) = step e s (.req (some (hash g2)) none w) := by
   rw [h]
 
+/-! ### Grids that differ in their weights only
+
+`Grid.__eq__` and `Grid.__hash__` ignore the weights (C10: equality is about coordinates), instances do not.  The
+executed key function `gridKey` (what `_get_grid_key` computes after repair D505; every `req`/`reqc` of the driver runs it)
+is faithful for grids = (coordinates, weights); the unrepaired key part `hash(grid)` is not. -/
+
+/-- **The repaired key discharges `HashFaithful` for grids with weights**: grids that differ in their coordinates *or*
+in their weights get different ids (given that the digests of coordinates and weights themselves do not collide —
+that part stays C10's hash assumption). -/
+theorem gridKey_faithful : HashFaithful gridKey := fun _ _ h => gridKey_injective h
+
+/-- The unrepaired key part (`hash(grid)`, coordinates only) is not faithful. -/
+theorem coords_key_not_faithful : ¬ HashFaithful Mutant.gridKeyCoords := by
+  intro h
+  have := h ⟨1, 1⟩ ⟨1, 2⟩ rfl
+  cases this
+
+/-- **Defect D505 (clean tree)**: with the coordinates-only key, a grid with equal coordinates and other weights is
+answered exactly like the first grid, in every state and at every wavelength — it is handed the first grid's
+instance. -/
+theorem coords_key_shares_instance (e : Elem) (s : St) (c w1 w2 : Nat) (wl : Option WlKey) :
+    step e s (.req (some (Mutant.gridKeyCoords ⟨c, w1⟩)) none wl)
+      = step e s (.req (some (Mutant.gridKeyCoords ⟨c, w2⟩)) none wl) :=
+  colliding_grids_share_instance Mutant.gridKeyCoords e s ⟨c, w1⟩ ⟨c, w2⟩ wl rfl
+
+/-- **With the repaired key, grids that differ in weights only never share an instance**: two forward requests (any
+two reachable states of a grid-dependent element) handed instances made for the same key were made on grids with the
+same coordinates and the same weights. -/
+theorem weights_distinguish_instances {e : Elem} (hT : Truthful e) (hmax : 1 ≤ e.maxN)
+    (hg : e.gridDep = true) {s1 s2 : St} (h1 : Inv e s1) (h2 : Inv e s2) (g1 g2 : Grid)
+    (w : Option WlKey) (k : Key) (v1 v2 : Nat)
+    (r1 : (step e s1 (.req (some (gridKey g1)) none w)).2 = .inst k v1)
+    (r2 : (step e s2 (.req (some (gridKey g2)) none w)).2 = .inst k v2) :
+    g1.coord = g2.coord ∧ g1.weights = g2.weights := by
+  have := distinct_grids_distinct_instances gridKey gridKey_faithful hT hmax hg h1 h2 g1 g2 w k v1 v2 r1 r2
+  subst this
+  exact ⟨rfl, rfl⟩
+
+/-- **Transparency for histories on actual grids** (coordinates and weights) seen through the executed key: the
+shared element answers every request as a fresh element does, and (by `gridKey_faithful`) the key of the instance
+handed out determines coordinates and weights of the grids it was made for. -/
+theorem transparent_on_grids {e : Elem} (hT : Truthful e) (hmax : 1 ≤ e.maxN) (ver : Nat) (ops : List OpG) :
+    run e (St.init ver) (ops.map (OpG.toOp gridKey)) = specRun e ver (ops.map (OpG.toOp gridKey)) :=
+  transparent hT hmax ver _
+
+/-- The same histories through the coordinates-only key are *not* transparent with respect to the grids: a concrete
+history (forward on a grid, forward on a grid with the same coordinates and other weights) in which the second
+request is answered `hit` by the first grid's instance, while the executed key creates a second instance. -/
+theorem coords_key_history_counterexample :
+    let e : Elem := ⟨true, true, 11, fun _ _ _ => none, fun _ _ g => some g⟩
+    let ops : List OpG := [.req (some ⟨1, 1⟩) none (some 5), .req (some ⟨1, 2⟩) none (some 5)]
+    (run e (St.init 0) (ops.map (OpG.toOp Mutant.gridKeyCoords))).getLast? =
+        (run e (St.init 0) (ops.map (OpG.toOp Mutant.gridKeyCoords))).head? ∧
+      (run e (St.init 0) (ops.map (OpG.toOp gridKey))).getLast? ≠
+        (run e (St.init 0) (ops.map (OpG.toOp gridKey))).head? := by decide
+
+/-! ### Declared dependences: what `make_instance` reads versus what the key retains
+
+`Content.make : Key → Nat → α` (an instance is a function of its key) is discharged here from a model of what
+`make_instance` reads, instead of being assumed. -/
+
+/-- A request as `make_instance` sees it: the value id of every dimension (specification side). -/
+abbrev ReqEnv := Dim → Nat
+
+/-- What a key that retains the dimensions `covers` keeps of a request. -/
+def keyView (covers : Dim → Bool) (r : ReqEnv) : Dim → Option Nat := fun d => if covers d then some (r d) else none
+
+/-- `mk` (an element's `make_instance`, as a function of the request) reads only the dimensions in `reads`. -/
+def ReadsOnly {α : Type} (reads : List Dim) (mk : ReqEnv → α) : Prop :=
+  ∀ r1 r2 : ReqEnv, (∀ d ∈ reads, r1 d = r2 d) → mk r1 = mk r2
+
+example : ReadsOnly [Dim.coords, Dim.wavelength] (fun r => r .coords + 2 * r .wavelength) := by
+  intro r1 r2 h
+  simp only [h .coords (by simp), h .wavelength (by simp)]
+
+/-- **An instance is a function of its key**: if the key retains every dimension `make_instance` reads, two requests
+with the same key view build the same instance content — whatever else differs between them (other weights, another
+wavelength for a wavelength-independent element, …). -/
+theorem instance_determined_by_key {α : Type} (covers : Dim → Bool) (reads : List Dim) (mk : ReqEnv → α)
+    (hc : uncoveredBy covers reads = []) (hr : ReadsOnly reads mk) (r1 r2 : ReqEnv)
+    (hk : keyView covers r1 = keyView covers r2) : mk r1 = mk r2 := by
+  apply hr
+  intro d hd
+  have hcov : covers d = true := by
+    by_contra hn
+    have : d ∈ uncoveredBy covers reads := by
+      simp only [uncoveredBy, List.mem_filter]
+      exact ⟨hd, by simpa using hn⟩
+    rw [hc] at this
+    cases this
+  have := congrFun hk d
+  simpa [keyView, hcov] using this
+
+/-- Hence `make_instance` factors through the key view: this is the `Content.make` of the cache model. -/
+theorem make_factors_through_key {α : Type} [Inhabited α] (covers : Dim → Bool) (reads : List Dim) (mk : ReqEnv → α)
+    (hc : uncoveredBy covers reads = []) (hr : ReadsOnly reads mk) :
+    ∃ mk' : (Dim → Option Nat) → α, ∀ r, mk r = mk' (keyView covers r) := by
+  classical
+  refine ⟨fun kv => if h : ∃ r, keyView covers r = kv then mk h.choose else default, ?_⟩
+  intro r
+  have hex : ∃ r', keyView covers r' = keyView covers r := ⟨r, rfl⟩
+  simp only [dif_pos hex]
+  exact instance_determined_by_key covers reads mk hc hr r _ hex.choose_spec.symm
+
+/-- **Every shipped family is covered** by the repaired key: nothing its `make_instance` reads is lost.  (The harness
+compares each row with the flags and the reads observed on the running classes.) -/
+theorem shipped_families_covered : ∀ f ∈ shippedFamilies, uncovered f.gridDep f.wlDep f.reads = [] := by decide
+
+/-- … so for every shipped family, requests with equal key views build equal instances. -/
+theorem shipped_instances_determined_by_key {α : Type} (f : Family) (hf : f ∈ shippedFamilies) (mk : ReqEnv → α)
+    (hr : ReadsOnly f.reads mk) (r1 r2 : ReqEnv)
+    (hk : keyView (keyCovers f.gridDep f.wlDep) r1 = keyView (keyCovers f.gridDep f.wlDep) r2) : mk r1 = mk r2 :=
+  instance_determined_by_key _ f.reads mk (shipped_families_covered f hf) hr r1 r2 hk
+
+/-- **A read the key loses breaks it**: for any dimension read but not retained there are an admissible `make_instance`
+and two requests with the same key view that must get different instances. -/
+theorem uncovered_read_breaks (covers : Dim → Bool) (reads : List Dim) (d : Dim)
+    (hu : d ∈ uncoveredBy covers reads) :
+    ∃ (mk : ReqEnv → Nat) (r1 r2 : ReqEnv), ReadsOnly reads mk ∧ keyView covers r1 = keyView covers r2 ∧ mk r1 ≠ mk r2 := by
+  have hd : d ∈ reads := (List.mem_filter.mp hu).1
+  have hn : covers d = false := by simpa using (List.mem_filter.mp hu).2
+  refine ⟨fun r => r d, fun _ => 0, fun d' => if d' = d then 1 else 0, ?_, ?_, ?_⟩
+  · intro r1 r2 h
+    exact h d hd
+  · funext d'
+    by_cases h : d' = d
+    · subst h; simp [keyView, hn]
+    · simp [keyView, h]
+  · simp
+
+/-- With the unrepaired key every grid-dependent shipped family loses a dimension it reads (the weights): D505. -/
+theorem coords_only_key_loses_weights :
+    ∀ f ∈ shippedFamilies, f.gridDep = true →
+      uncoveredBy (Mutant.keyCoversCoordsOnly f.gridDep f.wlDep) f.reads = [Dim.weights] := by decide
+
+/-- The seeded regression C07-8 in the model: a magnifier that reads the grid's weights while the key does not
+retain them (not grid dependent, or grid dependent with the coordinates-only key). -/
+theorem magnifier_reading_weights_uncovered :
+    uncovered false true [Dim.weights, Dim.wavelength] = [Dim.weights] ∧
+      uncoveredBy (Mutant.keyCoversCoordsOnly true true) [Dim.coords, Dim.weights, Dim.wavelength] = [Dim.weights] := by
+  decide
+
 /-! ## The wavelength key (the property's side condition "wavelengths at least 1e-6 apart")
 
 `wavelength_key = int(np.round(np.log(wavelength) / np.log(1 + 1e-9)))`, modelled over ℝ as
 `wlKey r b lam = r (log lam / log b)` for any round-to-nearest `r` (ties broken either way) and any
 base `b ∈ [1 + 1e-9/2, 1 + 2e-9]` — in particular the exact `1 + 1e-9` and the double the code uses. -/
 
-/-- The double nearest to `1 + 1e-9` (what `1 + 1e-9` evaluates to in the code), `1 + 4503600·2⁻⁵²`
-(the harness checks this identity on the running interpreter), is an admissible base. -/
-theorem base_double_ok : BaseOk (1 + 4503600 / 2 ^ 52) := by
-  constructor <;> norm_num
+/-- The executed base `wlBase` (the double nearest to `1 + 1e-9`: what `1 + 1e-9` evaluates to in the code, `1 + 4503600·2⁻⁵²`;
+the harness checks this identity on the running interpreter) is an admissible base. -/
+theorem wlBase_ok : BaseOk ((wlBase : ℚ) : ℝ) := by
+  rw [wlBase_cast]; exact base_double_ok
 
 example : Nearest (round : ℝ → ℤ) := nearest_round
 example : BaseOk (1 + 1 / 10 ^ 9) := baseOk_exact
 
-/-- **Wavelengths at least a relative 1e-6 apart never share an instance**: their keys differ (by at
-least 498), whatever the tie-breaking of the rounding and for the exact as well as the double base. -/
-theorem wavelength_key_separates {r : ℝ → ℤ} (hr : Nearest r) {b : ℝ} (hb : BaseOk b)
+/-- **Wavelengths at least a relative 1e-6 apart never share an instance**: their keys (at the base the code uses) differ
+by at least 498, whatever the tie-breaking of the rounding.  (Any base in `[1 + 1e-9/2, 1 + 2e-9]`:
+`wavelength_key_separates_base`, Lemmas/WavelengthKey.lean.) -/
+theorem wavelength_key_separates {r : ℝ → ℤ} (hr : Nearest r)
     {l1 l2 : ℝ} (h1 : 0 < l1) (h : l1 * (1 + 1 / 10 ^ 6) ≤ l2) :
-    wlKey r b l1 ≠ wlKey r b l2 ∧ wlKey r b l1 + 498 ≤ wlKey r b l2 := by
-  have := wavelength_key_separates_base hr hb h1 h
+    wlKey r ((wlBase : ℚ) : ℝ) l1 ≠ wlKey r ((wlBase : ℚ) : ℝ) l2 ∧
+      wlKey r ((wlBase : ℚ) : ℝ) l1 + 498 ≤ wlKey r ((wlBase : ℚ) : ℝ) l2 := by
+  have := wavelength_key_separates_base hr wlBase_ok h1 h
   exact ⟨by omega, this⟩
 
 /-- **Coalescing is local**: wavelengths within a relative 1e-10 get the same or neighbouring keys. -/
-theorem wavelength_key_stable {r : ℝ → ℤ} (hr : Nearest r) {b : ℝ} (hb : BaseOk b)
+theorem wavelength_key_stable {r : ℝ → ℤ} (hr : Nearest r)
     {l1 l2 : ℝ} (h1 : 0 < l1) (hle : l1 ≤ l2) (h : l2 ≤ l1 * (1 + 1 / 10 ^ 10)) :
-    |wlKey r b l2 - wlKey r b l1| ≤ 1 :=
-  wavelength_key_stable_base hr hb h1 hle h
+    |wlKey r ((wlBase : ℚ) : ℝ) l2 - wlKey r ((wlBase : ℚ) : ℝ) l1| ≤ 1 :=
+  wavelength_key_stable_base hr wlBase_ok h1 hle h
 
-/-- **What the cache coalesces**: two wavelengths that share a key (hence an instance) are within one
-factor `base` (a relative 1e-9) of each other, in both directions. -/
-theorem wavelength_key_shared_close {r : ℝ → ℤ} (hr : Nearest r) {b : ℝ} (hb : BaseOk b)
-    {l1 l2 : ℝ} (h1 : 0 < l1) (h2 : 0 < l2) (h : wlKey r b l1 = wlKey r b l2) :
-    l2 ≤ l1 * b ∧ l1 ≤ l2 * b :=
-  ⟨wavelength_key_shared_close_base hr hb h1 h2 h, wavelength_key_shared_close_base hr hb h2 h1 h.symm⟩
+/-- **What the cache coalesces**: two wavelengths that share a key (hence an instance) are within one factor `base`
+(a relative 1e-9) of each other, in both directions. -/
+theorem wavelength_key_shared_close {r : ℝ → ℤ} (hr : Nearest r)
+    {l1 l2 : ℝ} (h1 : 0 < l1) (h2 : 0 < l2) (h : wlKey r ((wlBase : ℚ) : ℝ) l1 = wlKey r ((wlBase : ℚ) : ℝ) l2) :
+    l2 ≤ l1 * ((wlBase : ℚ) : ℝ) ∧ l1 ≤ l2 * ((wlBase : ℚ) : ℝ) :=
+  ⟨wavelength_key_shared_close_base hr wlBase_ok h1 h2 h, wavelength_key_shared_close_base hr wlBase_ok h2 h1 h.symm⟩
 
-/-- The instance as in the code up to tie-breaking: Mathlib's `round`, exact base. -/
+/-- The instance as in the code up to tie-breaking: Mathlib's `round`, the code's base. -/
 theorem wavelength_key_separates_round {l1 l2 : ℝ} (h1 : 0 < l1) (h : l1 * (1 + 1 / 10 ^ 6) ≤ l2) :
-    wlKey round (1 + 1 / 10 ^ 9) l1 ≠ wlKey round (1 + 1 / 10 ^ 9) l2 :=
-  (wavelength_key_separates nearest_round baseOk_exact h1 h).1
+    wlKey round ((wlBase : ℚ) : ℝ) l1 ≠ wlKey round ((wlBase : ℚ) : ℝ) l2 :=
+  (wavelength_key_separates nearest_round h1 h).1
+
+/-! ### The executed enclosure of key differences (`wlKeyDiffBounds`, driver op `wldiff`)
+
+Ties the ℝ model `wlKey` to definitions the driver runs: for rational wavelengths (every float is one) the exact rational
+bounds enclose the key difference of the ℝ model at the double base, and the harness checks that the key differences of the
+running code lie inside the same bounds. -/
+
+/-- **The executed bounds enclose the modelled key difference** (any tie-breaking, the double base). -/
+theorem wavelength_key_diff_enclosed {r : ℝ → ℤ} (hr : Nearest r) {l1 l2 : ℚ} (h1 : 0 < l1) (hle : l1 ≤ l2) :
+    (((wlKeyDiffBounds l1 l2).1 : ℚ) : ℝ) ≤
+        (wlKey r ((wlBase : ℚ) : ℝ) (l2 : ℝ) : ℝ) - (wlKey r ((wlBase : ℚ) : ℝ) (l1 : ℝ) : ℝ) ∧
+      (wlKey r ((wlBase : ℚ) : ℝ) (l2 : ℝ) : ℝ) - (wlKey r ((wlBase : ℚ) : ℝ) (l1 : ℝ) : ℝ) ≤
+        (((wlKeyDiffBounds l1 l2).2 : ℚ) : ℝ) :=
+  key_diff_bounds_rat hr h1 hle
+
+example : (0 : ℚ) < 1 ∧ (1 : ℚ) ≤ 2 := by norm_num
+
+/-- **Separation, on the executed bounds**: at the property's side condition (`λ2 ≥ λ1·(1 + 1e-6)`) the executed lower
+bound of the key difference is already ≥ 498 — the two wavelengths cannot share a cache entry. -/
+theorem wavelength_key_executed_separates {l1 l2 : ℚ} (h1 : 0 < l1) (h : l1 * (1 + 1 / 10 ^ 6) ≤ l2) :
+    498 ≤ (wlKeyDiffBounds l1 l2).1 := by
+  have h2 : 0 < l2 := lt_of_lt_of_le (by positivity) h
+  have hq : l1 / l2 ≤ 10 ^ 6 / (10 ^ 6 + 1) := by
+    rw [div_le_div_iff₀ h2 (by norm_num)]
+    norm_num at h ⊢
+    linarith
+  simp only [wlKeyDiffBounds, wlDiffLo, wlBase]
+  rw [le_sub_iff_add_le, le_div_iff₀ (by norm_num)]
+  norm_num at hq ⊢
+  linarith
+
+/-- **Stability, on the executed bounds**: wavelengths within a relative `1e-10` have an executed upper bound below 2,
+i.e. the same or neighbouring keys. -/
+theorem wavelength_key_executed_stable {l1 l2 : ℚ} (h1 : 0 < l1) (h : l2 ≤ l1 * (1 + 1 / 10 ^ 10)) :
+    (wlKeyDiffBounds l1 l2).2 < 2 := by
+  have hq : l2 / l1 ≤ 1 + 1 / 10 ^ 10 := by
+    rw [div_le_iff₀ h1]
+    linarith
+  simp only [wlKeyDiffBounds, wlDiffHi, wlBase]
+  rw [← lt_sub_iff_add_lt, div_lt_iff₀ (by norm_num)]
+  norm_num at hq ⊢
+  linarith
+
+/-- Both together with the enclosure: the modelled keys of two rational wavelengths at the property's bound differ by at
+least 498 — `wavelength_key_separates` recovered through the executed definition. -/
+theorem wavelength_key_separates_executed {r : ℝ → ℤ} (hr : Nearest r) {l1 l2 : ℚ} (h1 : 0 < l1)
+    (h : l1 * (1 + 1 / 10 ^ 6) ≤ l2) :
+    (498 : ℝ) ≤ (wlKey r ((wlBase : ℚ) : ℝ) (l2 : ℝ) : ℝ) - (wlKey r ((wlBase : ℚ) : ℝ) (l1 : ℝ) : ℝ) := by
+  have hle : l1 ≤ l2 := by nlinarith
+  have e := (wavelength_key_diff_enclosed hr h1 hle).1
+  have s : ((498 : ℚ) : ℝ) ≤ (((wlKeyDiffBounds l1 l2).1 : ℚ) : ℝ) := by
+    exact_mod_cast wavelength_key_executed_separates h1 h
+  push_cast at s
+  linarith
 
 /-! ## Scratch state of the Fourier objects -/
 
